@@ -1999,8 +1999,8 @@ def _update_all_results(
     all_results: dict[OUTPUT_TYPE, Any],
     lazy: bool,  # noqa: FBT001
 ) -> None:
-    if isinstance(func.output_name, tuple) and not isinstance(output_name, tuple):
-        # Function produces multiple outputs, but only one is requested
+    if isinstance(func.output_name, tuple):
+        # Function produces multiple outputs, make each of them available by its own name
         assert func.output_picker is not None
         for name in func.output_name:
             all_results[name] = (
@@ -2008,6 +2008,8 @@ def _update_all_results(
                 if lazy
                 else func.output_picker(r, name)
             )
+        if isinstance(output_name, tuple):  # the tuple itself is requested
+            all_results[func.output_name] = r
     else:
         all_results[func.output_name] = r
 
